@@ -352,7 +352,11 @@ def first_bad_varlist(block, enc, vps):
                     gs = "None" if g is None else "(trials=%d, preamble=%d)" % (g.num_trials, g.preamble_size)
                     which = ("not a trial variable (variables_per_sample = %d): it collides with an auxiliary variable" % vps
                              if not ks else "the variable of (trial, factor, level) = %r" % (ks[0],))
-                    return ("layout:varlist-outside-grid",
+                    T = block.trials_per_sample()
+                    over = any(b > T for _, b in block.map_block_trial_ranges(g, lambda s, e: (s, e)))
+                    sig = ("layout:varlist-window-overrun" if over else
+                           "layout:varlist-complex-misindexed" if f.has_complex_window else "layout:varlist-outside-grid")
+                    return (sig,
                             "%s: build_variable_lists for factor %d level %d within %s lists variable %d, which is %s"
                             % (cname, want[0], want[1], gs, v, which),
                             {"constraint": cname, "factor": want[0], "level": want[1], "variable": v, "vps": vps,
@@ -385,7 +389,12 @@ def search_layout(program, built, block):
         if set(enc) != set(range(1, vps + 1)):
             missing = sorted(set(range(1, vps + 1)) - set(enc))[:5]
             extra = sorted(set(enc) - set(range(1, vps + 1)))[:5]
-            bad.append(("encode:image", "encoded variables are not exactly 1..%d (unused %r, outside %r)" % (vps, missing, extra),
+            twice = len(uniq_act(block)) < len(block.act_design)
+            bad.append(("layout:factor-listed-twice" if twice else "encode:image",
+                        "encoded variables are not exactly 1..%d (unused %r, outside %r)%s" % (
+                            vps, missing, extra,
+                            "; act_design lists a factor object twice: %r" % ([str(getattr(f.name, "name", f.name)) for f in block.act_design],)
+                            if twice else ""),
                         {"vps": vps, "unused": missing, "outside": extra}))
         for v, ks in enc.items():
             if len(ks) != 1:
@@ -569,7 +578,8 @@ def search_program(ctx, program, r):
         if why is not None:
             names = [f.name for f in uniq_act(block)]
             dup = len(set(names)) < len(names)
-            bad.append(("decode:duplicate-name" if dup else "decode:onehot", why,
+            twice = len(uniq_act(block)) < len(block.act_design)
+            bad.append(("decode:duplicate-name" if dup else "layout:factor-listed-twice" if twice else "decode:onehot", why,
                         {"assignment": [v for v in a if v > 0], "source": kind}))
             break
     return bad
